@@ -121,9 +121,20 @@ GARBAGE = ["", "bytes", "bytes=", "bytes=-", "bytes=,", "bytes= ", "byte=0-1", "
            "bytes=1-1-1-1", "bytes=-1--1", "bytes=9-,-", "none", "bytes=0-0-0", "bytes=-5-5"]
 
 
+OTHER_UNITS = ["byte=0-10", "items=0-1", "none", "=0-1", "lines=0-10", "bytes", "octets=0-0", "pages=1-2", "seconds=0-", "0-1", "bytess=0-1"]
+
+
 def run(ctx):
     contracts.arm_parse_range()
     rng = ctx.rng("c03")
+    # "not a bytes range set" is malformed (400) whatever the file size is, the empty file included
+    for h in OTHER_UNITS:
+        for size in (0, 1, 10, 10 ** 6):
+            got, val = call(h, size)
+            ctx.mon("reject-or-canonical")
+            if got != "400":
+                ctx.violation(f"outcome|expected=400|got={got}|not-a-bytes-range-set", {"header": h, "size": size}, repr(val))
+            ctx.case((h, size))
     for h, s in REGRESSION:
         specs = tokenize(h)
         if specs is not None:
